@@ -20,7 +20,7 @@ LEVEL = 'exploration'
 TECHNIQUE = ('end-to-end simulation: Hypothesis-generated keys, plaintext sets and configurations; traces = model(real intermediate state of an independent reference cipher) + bounded uniform noise at known samples; '
              'oracle = ranking predicate: the guess returned by the selection function\'s expected-key function must lead every other guess by a fixed margin for every attacked word')
 RULE = ('case = (cipher AES-128/192/256 | DES, ready-made selection function class of the encrypt/decrypt namespaces (first and last rounds), attack in CPA|DPA|ANOVA|NICV|SNR|MIA|TemplateDPA|Template(static), '
-        'model, discriminant, 2-4 attacked words, N = 300 traces (600 profiling traces for templates), container batch size, precision). Every case is a full attack and counts as non-trivial; distinct = digest of the case. '
+        'model, discriminant, 2-4 attacked words, N = 300 traces (600 for DES DPA and for template profiling), DC offset 0/3/20, container batch size, optional convergence_step, precision). Every case is a full attack and counts as non-trivial; distinct = digest of the case. '
         'Blind combinations (AddRoundKey targets with partition/bit based statistics: every guess induces the same partition) are excluded by construction.')
 LEVEL_TEXT = ('Each generated configuration runs the public Container -> selection function -> model -> distinguisher -> discriminant pipeline on simulated traces and requires scores[expected key word, word] to exceed every other guess '
               'by 5% of its magnitude (calibration on the unchanged tree: smallest observed lead is reported in the evidence notes). Exploration over sampled keys/plaintexts/configurations.')
@@ -28,6 +28,8 @@ LEVEL_NOTE = 'trusted: reference ciphers (self-tested) for the true intermediate
 ASSUMPTIONS = [
     'leakage = model(state word) at one sample per attacked word + uniform noise in [-0.25, 0.25]; other samples are pure noise',
     'AddRoundKey targets are attacked with CPA + HammingWeight + nanmax only (maxabs ties the complemented key; partition/bit statistics are blind there)',
+    'DES S-box 4 (word 3) is not attacked with Value-partition statistics: S4(x ^ 0x2f) is a fixed relabelling of S4(x), so two guesses tie exactly (blind combination, excluded by construction)',
+    'DES DPA on bit 2 of S-box 2 is excluded: its best wrong guess reaches 89% of the true peak without any noise (structural ghost peak), far inside the 5% margin once noise is added',
     'static template attack: matching traces all carry one class, the best-scoring template must be that class (there is no key guess in this attack)',
 ]
 
@@ -66,7 +68,7 @@ def _leak(case, values, seed_extra):
     N, nw = values.shape
     g = gen.rng('c17-noise', int(case['noise_seed']), seed_extra)
     S = 2 * nw + 1
-    tr = g.uniform(-0.25, 0.25, size=(N, S))
+    tr = g.uniform(-0.25, 0.25, size=(N, S)) + float(case.get('offset', 0.0))
     m = case['model']
     for j in range(nw):
         v = values[:, j]
@@ -105,9 +107,12 @@ def _check(ctx, case):
     cont = scared.Container(ths)
     mod = getattr(aes_sf if cipher == 'aes' else des_sf, ns)
     sf = getattr(mod, cls)(words=words if attack not in ('tdpa',) else words[0])
-    labels = ['cipher:%s' % cipher, 'attack:' + attack, 'target:%s.%s' % (cipher, name), 'model:' + case['model'], 'keysize:%d' % len(key), 'batch:%s' % (case['batch_size'] or 'default'), 'prec:' + case['precision']]
+    labels = ['cipher:%s' % cipher, 'attack:' + attack, 'target:%s.%s' % (cipher, name), 'model:' + case['model'], 'keysize:%d' % len(key), 'batch:%s' % (case['batch_size'] or 'default'), 'prec:' + case['precision'],
+              'offset:%g' % case.get('offset', 0.0), 'convergence_step:%s' % (case.get('convergence_step') or 'none')]
     nclass = {'hw': (9 if cipher == 'aes' else (7 if 'AddRoundKey' in name else 5)), 'value': (256 if cipher == 'aes' else 16)}.get(case['model'], 2)
     kw = dict(selection_function=sf, model=_scared_model(case), precision=case['precision'])
+    if case.get('convergence_step') and attack != 'tstatic':
+        kw['convergence_step'] = int(case['convergence_step'])
     if attack == 'tstatic':
         # profiling on the simulated set, matching on traces that all carry one class: no key involved
         w0 = words[0]
@@ -142,7 +147,7 @@ def _check(ctx, case):
     elif attack in ('anova', 'nicv', 'snr'):
         a = getattr(scared, attack.upper() + 'Attack')(discriminant=getattr(scared, case['discriminant']), partitions=range(nclass), **kw)
     elif attack == 'mia':
-        a = scared.MIAAttack(discriminant=getattr(scared, case['discriminant']), partitions=range(nclass), bin_edges=[-0.5 + i for i in range(nclass + 1)], **kw)
+        a = scared.MIAAttack(discriminant=getattr(scared, case['discriminant']), partitions=range(nclass), bin_edges=[float(case.get('offset', 0.0)) - 0.5 + i for i in range(nclass + 1)], **kw)
     else:
         w0 = words[0]
         # profiling set: another simulated acquisition with known intermediate values
@@ -181,6 +186,7 @@ def _check(ctx, case):
             raise Violation('%s on %s.%s: score of the true key word %d (guess %d) is %r' % (attack, cipher, name, w, k, t), case)
         lead = (t - best_other) / max(abs(t), 1e-12)
         ctx.note_max('smallest_lead_negated', -lead)
+        ctx.note_max('smallest_lead_negated:%s:%s:%s' % (cipher, attack, case['model'][:4]), -lead)
         if not lead > MARGIN:
             raise Violation('%s (%s, %s, %s) on %s.%s word %d: expected key guess %d scores %r, best other guess %d scores %r: the true key does not lead by %d%%' % (
                 attack, case['model'], case['discriminant'], case['precision'], cipher, name, w, k, float(t), int(np.nanargmax(np.where(np.arange(G) == k, -np.inf, np.nan_to_num(col, nan=-np.inf)))), best_other, int(MARGIN * 100)), case)
@@ -205,7 +211,7 @@ def cases(draw, cipher, attack):
     target = draw(st.sampled_from(targets))
     is_ark = 'AddRoundKey' in target
     key = np.frombuffer(draw(st.binary(min_size=ks, max_size=ks)), dtype='uint8').copy()
-    N = 300 if attack != 'tstatic' else 600
+    N = 600 if attack == 'tstatic' or (cipher == 'des' and attack == 'dpa') else 300
     pts = g.integers(0, 256, size=(N, blk)).astype('uint8')
     nwords = draw(st.integers(2, 4)) if attack not in ('tdpa', 'tstatic') else 1
     words = sorted(int(v) for v in g.choice(nw, size=nwords, replace=False))
@@ -219,10 +225,20 @@ def cases(draw, cipher, attack):
         model = 'hw'
     if attack == 'tstatic':
         model = 'hw' if draw(st.booleans()) else model
+    if cipher == 'des' and attack == 'dpa' and model == 'mono2' and 1 in words:
+        # structurally weak, excluded by construction: for bit 2 of DES S-box 2 the best wrong guess reaches 89% of the true peak even without noise
+        # (measured lead 0.11 at N=3000, noise-free); every other (S-box, bit) pair leads by >= 0.22
+        words = sorted([w for w in words if w != 1] + [min(v for v in range(8) if v != 1 and v not in words)])
+    if cipher == 'des' and model == 'value' and attack != 'tstatic':
+        # blind by construction: DES S-box 4 satisfies S4(x ^ 0x2f) = pi(S4(x)) for a fixed bijection pi, so the guesses k and k ^ 0x2f
+        # induce the same partition of the traces by VALUE and every partition statistic ties them (found by the thorough tier on the unchanged tree)
+        if 3 in words:
+            words = sorted([w for w in words if w != 3] + [min(v for v in range(8) if v != 3 and v not in words)])
     disc = 'nanmax' if is_ark else draw(st.sampled_from(['maxabs', 'nanmax'])) if attack not in ('dpa',) else 'maxabs'
     case = {'kind': 'attack', 'cipher': cipher, 'attack': attack, 'target': target, 'key': key, 'plaintexts': pts, 'words': words, 'model': model, 'discriminant': disc,
             'precision': draw(st.sampled_from(['float32', 'float64'])), 'tdtype': draw(st.sampled_from(['float32', 'float64'])),
-            'batch_size': draw(st.sampled_from([0, 0, 100, 37, 300])), 'noise_seed': draw(st.integers(0, 2 ** 32))}
+            'batch_size': draw(st.sampled_from([0, 0, 100, 37, 300])), 'noise_seed': draw(st.integers(0, 2 ** 32)),
+            'offset': draw(st.sampled_from([0.0, 0.0, 3.0, 20.0])), 'convergence_step': draw(st.sampled_from([0, 0, 50, 100, 120]))}
     if attack == 'tdpa':
         case['profiling_plaintexts'] = g.integers(0, 256, size=(600, blk)).astype('uint8')
     return case
